@@ -442,6 +442,10 @@ namespace Pistache::Http::Experimental
             // takes timeoutsLock again when it is sent: call it with the lock released.
             if (connection)
             {
+                // The answer to the request that timed out may still arrive. It must not be
+                // taken for the answer to the next request: give up the connection.
+                connections.erase(connection->fd());
+                connection->close();
                 connection->handleTimeout();
             }
         }
@@ -1112,11 +1116,30 @@ namespace Pistache::Http::Experimental
                     break;
                 }
 
+                auto onDone = [this, conn]() {
+                    pool.releaseConnection(conn);
+                    processRequestQueue();
+                };
+                if (!conn->isConnected())
+                {
+                    // e.g. closed after a time-out: connect again, the request is sent once connected
+                    conn->asyncPerform(data->request, onDone)
+                        .then([data](Response response) { data->resolve(std::move(response)); },
+                              [data](std::exception_ptr exc) {
+                                  try
+                                  {
+                                      std::rethrow_exception(exc);
+                                  }
+                                  catch (const std::exception& e)
+                                  {
+                                      data->reject(std::runtime_error(e.what()));
+                                  }
+                              });
+                    conn->connect(helpers::httpAddr(domain));
+                    continue;
+                }
                 conn->performImpl(data->request, std::move(data->resolve),
-                                  std::move(data->reject), [this, conn]() {
-                                      pool.releaseConnection(conn);
-                                      processRequestQueue();
-                                  });
+                                  std::move(data->reject), onDone);
             }
         }
     }
